@@ -24,7 +24,7 @@ RULE = ("trees: the property's shape families (pure chain, text inside, trailing
         "strings). operations: parse, decode/encode/prettify/decode_contents/str under minimal, html, None and object "
         "formatters, copy, deepcopy, pickle dumps/loads, get_text/stripped_strings/.string, find_all/find on 20 criteria "
         "(fast paths, names, lists, attributes, string, name+string, functions, patterns, limit, recursive=False), the five "
-        "other search axes, the iterators, and extract/decompose/insert/append/extend/insert_before/insert_after/"
+        "other search axes, the CSS entry points (select/select_one/css.iselect/compile/closest/match/filter; growth oracle only), the iterators, and extract/decompose/insert/append/extend/insert_before/insert_after/"
         "replace_with/wrap/unwrap/clear/.string=/smooth/new_string. Non-trivial: nesting depth >= 2. Distinct by "
         "(tree, target, operation).")
 ASSUMPTIONS = [
@@ -37,7 +37,8 @@ ASSUMPTIONS = [
     "the kind of an inserted argument (plain str / parentless element / attached element / element already at the "
     "requested position / BeautifulSoup object with its children's kinds) is classified by the harness from the state "
     "before the call and is an input of the model",
-    "soupsieve (select) is third-party code and not covered; parse_only strainers and bytes input (UnicodeDammit) are not "
+    "soupsieve's internals are third-party code and not modelled: the CSS entry points of bs4/css.py are exercised by the "
+    "growth / RecursionError oracle only (from the document, the middle and the innermost element); parse_only strainers and bytes input (UnicodeDammit) are not "
     "in the parse model",
 ]
 
@@ -640,6 +641,18 @@ def oracle_ops(soup, deep_tag, mid_tag):
         ops["find('zzz')@" + label] = lambda el=el: el.find("zzz")
         ops["find_all(limit=3)@" + label] = lambda el=el: el.find_all("a", limit=3)
         ops["list(descendants)@" + label] = lambda el=el: sum(1 for _ in el.descendants)
+        # CSS selection is a search entry point too: bs4/css.py is repository code (soupsieve's internals are not),
+        # and it is started here from the document, from the middle of the nesting and from the innermost tag
+        ops["select('a')@" + label] = lambda el=el: el.select("a")
+        ops["select('a b, i')@" + label] = lambda el=el: el.select("a b, i")
+        ops["select('div > p')@" + label] = lambda el=el: el.select("div > p")
+        ops["select('b:not(.c) ~ i')@" + label] = lambda el=el: el.select("b:not(.c) ~ i")
+        ops["select('a', limit=2)@" + label] = lambda el=el: el.select("a", limit=2)
+        ops["select_one('zz')@" + label] = lambda el=el: el.select_one("zz")
+        ops["css.iselect('a')@" + label] = lambda el=el: sum(1 for _ in el.css.iselect("a"))
+        ops["css.compile('a b')@" + label] = lambda el=el: el.css.compile("a b")
+        ops["css.select(compiled)@" + label] = lambda el=el: el.css.select(el.css.compile("a"))
+        ops["select(namespaces={})@" + label] = lambda el=el: el.select("a", namespaces={})
         if el is not soup:
             ops["find_parents@" + label] = lambda el=el: el.find_parents("a")
             ops["find_parent(id=)@" + label] = lambda el=el: el.find_parent(id="nope")
@@ -648,6 +661,9 @@ def oracle_ops(soup, deep_tag, mid_tag):
             ops["find_next_siblings@" + label] = lambda el=el: el.find_next_siblings()
             ops["list(parents)@" + label] = lambda el=el: sum(1 for _ in el.parents)
             ops["list(next_elements)@" + label] = lambda el=el: sum(1 for _ in el.next_elements)
+            ops["css.closest('a')@" + label] = lambda el=el: el.css.closest("a")
+            ops["css.match('a a')@" + label] = lambda el=el: el.css.match("a a")
+            ops["css.filter('a')@" + label] = lambda el=el: el.css.filter("a")
     ops["pickle@doc"] = lambda: pickle.loads(pickle.dumps(soup))
     ops["pickle(copy)@doc"] = lambda: pickle.loads(pickle.dumps(copy.copy(soup)))
     ops["smooth@doc"] = lambda: soup.smooth()
